@@ -748,7 +748,13 @@ func (r *runner) classify(m missNode) (shape, why string) {
 				continue
 			}
 		}
-		got["live-record-on-superseded-version-path:"+kind] = fmt.Sprintf("%s deleted through superseded entry (%q@%d) although newest eligible (%q@%d) is a write of the current chain", desc, c.Key, c.H, e0.Key, e0.H)
+		deadFork := false
+		for _, ev := range r.events {
+			if ev.Abandoned && ev.Saved {
+				deadFork = true
+			}
+		}
+		got[fmt.Sprintf("live-record-on-superseded-version-path:%s/memtree=%v/dead-fork-in-history=%v", kind, r.h.Cfg.MemTree, deadFork)] = fmt.Sprintf("%s deleted through superseded entry (%q@%d) although newest eligible (%q@%d) is a write of the current chain", desc, c.Key, c.H, e0.Key, e0.H)
 	}
 	if len(got) == 0 {
 		return "deleted-though-only-on-entries-the-rule-keeps:" + kind, desc + " is only on index entries the prune rule must keep: " + lib.ShortList(notByRule, 4)
